@@ -10,6 +10,8 @@ use std::sync::atomic::Ordering;
 use vcommon::*;
 
 mod modes;
+mod modes_gen;
+mod modes_satb;
 mod modes_immix;
 mod modes_oom;
 mod modes_refs;
